@@ -27,6 +27,7 @@ Funding ops (stateless).  Syntax of the pieces:
   `ok conns=<sorted nodes> n=<registrations> <sorted registrations>` | `err` | `panic`
 * `openb <tx> <hint> <env> <k> (<order> <n> <matched>×n)×k` → whole-batch `BatchChannelSetup`: sorted requests
 * `sidecar <nonce> <ticket>…`                             → order | `err` | `panic`
+* `offer <ticket>`                                        → `offer=<0/1>` (`Manager.OfferSidecar` accepts the offer)
 * `gate <ticket> <order b…> <bidAmt> <minUnits>`          → `gate=<0/1>` (the repaired gate)
 -/
 namespace Pool.C17
@@ -386,6 +387,10 @@ def fundingStep (args : List String) : String :=
       | some tks => fmtRes (fun o => "ok " ++ fmtOrder o) (getSidecarAsOrder tks n)
       | none => "bad-op"
     | _, _ => "bad-op"
+  | ["offer", t] =>
+    match parseTicket t with
+    | some (some tk) => s!"offer={b01 (offerSidecarOK tk.offer)}"
+    | _ => "bad-op"
   | "gate" :: t :: ts =>
     match parseTicket t, pOrder ts with
     | some (some tk), some (.bid b, [amt, mu]) =>
